@@ -293,7 +293,7 @@ func pairJob(raw json.RawMessage) (any, error) {
 
 // c17ExoticTokens: parameter spellings the parser accepts besides the plain ones (empty rule, braces inside a rule,
 // '-' flag), and literal text in which two patterns share the first bytes of a multi-byte character.
-var c17ExoticTokens = []string{"a", "/", "/\u4e2d", "/\u4e3d", "\u4e2d", "\u4e3d", "{a}", "{b}", "{-a}", "{--a}", "{a:}", "{b:}", "{-b:}", "{a:\\d+}", "{b:\\d+}", "{a:a{}}", "{a:a{x}}", "{a:a{y}}", "{b:a{}}", "{a:x}", "{a:[}]}",
+var c17ExoticTokens = []string{"a", "/", "/\u4e2d", "/\u4e3d", "\u4e2d", "\u4e3d", "{a}", "{b}", "{-a}", "{--a}", "{a:}", "{b", "{c", "{b:}", "{-b:}", "{a:\\d+}", "{b:\\d+}", "{a:a{}}", "{a:a{x}}", "{a:a{y}}", "{b:a{}}", "{a:x}", "{a:[}]}",
 	"/" + strings.Repeat("s", 300)} // literal text longer than one byte can count
 
 func c17ExoticPool() []string {
@@ -366,6 +366,21 @@ func exoticJob(raw json.RawMessage) (any, error) {
 					rep("C17.rejected", "accepted:"+why, "Handle returned normally", "rejected: identical up to parameter names to the only other route")
 				}
 				continue
+			}
+			// a pattern without any closing brace is plain text: its own text is a path it answers, also once the node
+			// has enough children for the first-byte index (five more literal routes are registered for that)
+			for _, x := range indexBlock {
+				Guard(func() { r.Handle("/zz"+x, hv.Route("hblock"), nil, "GET") })
+				Guard(func() { r.Handle(x, hv.Route("hblock"), nil, "GET") })
+			}
+			for _, lit := range []string{it.First, second} {
+				if strings.ContainsAny(lit, "}") || lit == "" {
+					continue
+				}
+				// (another route may legitimately win the path - a parameter matching the empty string - but it cannot be nobody's)
+				if o := hv.Serve(r, hv.Req{Method: "OPTIONS", Path: lit}); o.Paniced || o.Status == 404 {
+					rep("C03.frame", "literal-route-lost-by-other-registration", fmt.Sprintf("OPTIONS %q after five more literal routes were registered: %s", lit, o.Summary()), "answered by the route "+lit+" (its text contains no parameter)")
+				}
 			}
 			// an accepted registration adds a route; it takes nothing away from the first one and does not change what
 			// the first pattern answers: a path served before is still served, and the first pattern serves no path it
